@@ -192,7 +192,7 @@ Proof.
         now rewrite (ctor_defdt d1 d2). }
       destruct (cls_eqb c CPermutation); [|apply GEN].
       destruct ch as [|[p| |] [|[q| |] [|? ?]]]; try reflexivity.
-      destruct (lookup k_validate_args nd); [|reflexivity]. now rewrite (ctor_defdt d1 d2).
+      destruct (lookup k_validate_args nd); [|reflexivity]. now rewrite AG.
   - destruct (cls_eqb c CIdentity).
     { destruct (lookup k_diag_shape nd); [|reflexivity]. destruct (lookup k_batch_shape nd); [|reflexivity].
       destruct (lookup k_device nd); [|reflexivity]. now rewrite (ctor_defdt d1 d2). }
